@@ -44,7 +44,13 @@ def cks(*objs):
         if o is None:
             out.append('none')
             continue
-        arrs = [o.data, o.indices, o.indptr] if hasattr(o, 'indptr') else [np.asarray(o)]
+        if hasattr(o, 'indptr'):
+            arrs = [o.data, o.indices, o.indptr]
+        elif hasattr(o, 'tocsr'):                       # other sparse formats: value-level identity
+            c = o.tocsr()
+            arrs = [c.data, c.indices, c.indptr]
+        else:
+            arrs = [np.asarray(o)]
         for a in arrs:
             a = np.ascontiguousarray(a)
             h.update(str(a.shape).encode() + a.dtype.str.encode() + a.tobytes())
@@ -114,13 +120,19 @@ def execute(rec):
     events = []
     hasb, hasx = rec['hasb'], rec['hasx']
 
+    fmt = rec.get('fmt', 'csr')
+
     def fresh():
         A = build_matrix(rec['A'])
+        if fmt != 'csr':
+            A = getattr(A, 'to' + fmt)()            # the same system in another storage format
         b = None
         if hasb == 1:
             b = np.array(rec['b'], dtype=np.float64)
         elif hasb == 2:
             b = build_matrix(rec['B'])
+            if fmt != 'csr':
+                b = getattr(b, 'to' + fmt)()
         x = np.array(rec['x'], dtype=np.float64) if hasx else None
         kw, D0 = split_object(rec, n)
         return A, b, x, kw, D0
@@ -385,6 +397,8 @@ def generate(tier, seed):
             rec['mpc'] = {'S': [int(v) for v in S], 'M': [int(v) for v in M],
                           'T': [[int(v) for v in row] for row in rng.integers(-2, 3, size=(ns, nm))],
                           'g': [int(v) for v in rng.integers(-3, 4, size=ns)]}
+        if k % 4 == 3:
+            rec['fmt'] = ['csc', 'lil'][(k // 4) % 2]     # other storage formats that support indexing
         recs.append(rec)
     # systems with known solution -> real solver
     for k in range(200 if tier == 'thorough' else 30):
@@ -431,7 +445,7 @@ def from_tlc(path):
 
 def scenario(sid, rec):
     return {'id': sid, 'recipe': rec, 'tags': {'form': rec['form'], 'n': rec['n'], 'hasb': rec['hasb'],
-                                               'family': rec.get('family', 'random')},
+                                               'family': rec.get('family', 'random'), 'fmt': rec.get('fmt', 'csr')},
             'events': execute(rec)}
 
 
@@ -465,7 +479,8 @@ def run(ctx):
     ctx.notes['tolerances'] = {'TolSolve': '2^-26 absolute (|solution| <= 64)', 'TolPenal': '2^-16 (epsilon = 2^-30)'}
     return ctx.finish(rule=RULE, assumptions=[
         'entries are small integers so that float64 arithmetic of the helpers is exact (exact universe)',
-        'matrices are CSR without duplicate column indices within a row (canonical as produced by assembly)',
+        'matrices are CSR (or CSC / LIL, which support indexing) without duplicate column indices within a row; COO, DIA '
+        'and BSR matrices (no indexing in SciPy) are not generated',
         'the real-solver pipelines (mode L) use strictly diagonally dominant integer systems with a known integer '
         'solution; TLC compares the fixed-point encoding of the returned floats with it'], exhaustive=False)
 
